@@ -5,6 +5,7 @@ converters back to the flat form and the encodings made from them, in canonical 
 import json
 
 from harness import core
+from harness import objs
 from harness import coder_io as C
 
 MAX_ATTR_DEPTH = 60
@@ -188,7 +189,7 @@ def observe(b, encode=True, max_values=None):
     from pybufrkit import utils as U
     out = {}
     try:
-        msg = Decoder().process(b, wire_template_data=False)
+        msg = objs.decoder().process(b, wire_template_data=False)
     except Exception as e:  # noqa
         out['decode'] = core.err_tag(e)
         return out
@@ -289,7 +290,7 @@ def observe(b, encode=True, max_values=None):
 
         def encode_one(name, data):
             try:
-                m = Encoder().process(data, wire_template_data=False)
+                m = objs.encoder().process(data, wire_template_data=False)
                 enc[name] = m.serialized_bytes
             except Exception as e:  # noqa
                 enc[name] = core.err_tag(e) + ' ' + type(e).__name__
